@@ -110,6 +110,9 @@ impl C07 {
             ("random-programs", t.pick(40_000, 2_000_000)),
             // every Unicode scalar value inside a comment; every white-space code point between all tokens (props/unisweep.rs)
             ("code-points-in-comments", if ctx.flavour == crate::sup::Flavour::Rel { super::unisweep::BLOCKS + 1 } else { 9 }),
+            // lists, argument lists and index expressions written with and without blanks, run by the shipped binary under
+            // several environments (a Dutch locale among them: the decimal comma must not reach the lexer)
+            ("tight-lists-through-the-binary", if ctx.flavour == crate::sup::Flavour::Rel { TIGHT.len() as u64 } else { 0 }),
         ])
     }
 
@@ -247,6 +250,26 @@ impl C07 {
     }
 }
 
+/// written with `, `: the layouts are derived from it
+const TIGHT: &[&str] = &[
+    "[1, 2, 3]",
+    "lengte([1, 2, 3])",
+    "[7, 5][0]",
+    "functie f(a, b) { a - b }; f(40, 2)",
+    "functie f(a, b) { [a, type(b)] }; f(7, 2)",
+    "print(\"{} en {}\", 1, 5)",
+    "[1.5, 2]",
+    "[1, 2.5]",
+    "[0, 5, 0, 25]",
+    "stel a = [3, 14]; a[1] + a[0]",
+    "functie g(x, y, z) { x * 100 + y * 10 + z }; g(1, 2, 3)",
+    "[[1, 2], [3, 4]]",
+    "[-1, -2]",
+    "[1, 000]",
+    "[12, 50, 7, 125]",
+    "print(\"{}\", [1, 5]); string([2, 5])",
+];
+
 impl Check for C07 {
     fn id(&self) -> &'static str {
         "C07"
@@ -270,7 +293,7 @@ impl Check for C07 {
     }
     fn describe_case(&mut self, ctx: &Ctx, idx: u64) -> String {
         let (_, name, i) = self.fams(ctx).locate(idx);
-        if name == "code-points-in-comments" {
+        if name == "code-points-in-comments" || name == "tight-lists-through-the-binary" {
             return format!("{} #{}", name, i);
         }
         render_canonical(&pieces_of(&self.tree_for(ctx, idx).1))
@@ -279,6 +302,15 @@ impl Check for C07 {
     fn run_case(&mut self, ctx: &Ctx, idx: u64, st: &mut Stats) {
         {
             let (_, name, i) = self.fams(ctx).locate(idx);
+            if name == "tight-lists-through-the-binary" {
+                let t = TIGHT[i as usize];
+                // the same tokens: no blank after a comma / a blank after every comma / a comment after every comma
+                for text in [t.replace(", ", ","), t.to_string(), t.replace(", ", ", // c\n "), t.replace(", ", " ,")] {
+                    st.count("tight-lists:layouts");
+                    super::binfile::compare_with_binary(&text, "tight-lists-through-the-binary", st);
+                }
+                return;
+            }
             if name == "code-points-in-comments" {
                 if i == 0 {
                     super::unisweep::white_space(name, st);
